@@ -1,4 +1,5 @@
 import DadiVerif.Lemmas.Het
+import DadiVerif.Lemmas.MeanFreq
 import DadiVerif.Generated.Phi1D
 import DadiVerif.Lemmas.Theory
 import DadiVerif.Lemmas.Theory2
@@ -54,6 +55,37 @@ theorem C01_het_step (xs : Array ℚ) (N : ℕ) (hN : xs.size = N + 2) (hgrid : 
     rw [if_neg (by omega), if_neg (by omega)]; simp
   exact L.het_step N hN (kappa P) (neutral_line xs P use eps dt hg hm) hx0 hx1 hgrid.2 hbc φ
     (L.stepFn φ) (L.step_solves φ hp)
+
+/-- **Mean-frequency (martingale) law of one implicit step** (neutral, one population, any β): with
+    m(φ) = Σ_j w_j x_j φ_j,   m(φ')/dt + w_last·bc_last·φ'_last = m(φ)/dt
+    on every grid from 0 to 1 and for every dt: pure drift moves no mean allele frequency — the first moment of the density
+    changes only through the absorbing term at x = 1 (fixation), never through the interior or the loss boundary. -/
+theorem C01_mean_step (xs : Array ℚ) (N : ℕ) (hN : xs.size = N + 2) (hgrid : GridOk xs)
+    (hx0 : xs.getD 0 0 = 0) (hx1 : xs.getD (N+1) 0 = 1)
+    (P : AxisParams) (hg : P.gamma = 0) (hm : P.ms = []) (use : Bool) (eps : ℕ → ℚ) (dt : ℚ)
+    (φ : ℕ → ℚ) (hp : PivotsOk 1 0 ((axisLine xs P [] use eps dt).rows φ)) :
+    let L := axisLine xs P [] use eps dt
+    L.mean (fun j => listGetD (L.step φ) j) / dt + L.w (N+1) * L.bc (N+1) * listGetD (L.step φ) (N+1) = L.mean φ / dt := by
+  intro L
+  have hbc : ∀ j, 0 < j → j + 1 < L.N → L.bc j = 0 := by
+    intro j h0 h1
+    have h1' : j + 1 < xs.size := h1
+    simp only [L, axisLine, mkLine]
+    rw [if_neg (by omega), if_neg (by omega)]; simp
+  exact L.mean_step N hN (kappa P) (neutral_line xs P use eps dt hg hm) hx0 hx1 hgrid.2 hbc φ
+    (L.stepFn φ) (L.step_solves φ hp)
+
+/-- the absorbing coefficient in that law is the documented one: bc_last = (1/(2ν))·2/dx_last for the neutral one-population
+    line (generated `bcLast`), so the mean frequency lost per step is dt·w_last·φ'_last/(ν·dx_last) -/
+theorem C01_mean_step_bc (xs : Array ℚ) (N : ℕ) (hN : xs.size = N + 2)
+    (P : AxisParams) (hg : P.gamma = 0) (hm : P.ms = []) (use : Bool) (eps : ℕ → ℚ) (dt : ℚ) :
+    (axisLine xs P [] use eps dt).bc (N+1) = 1 / P.nu / (xs.getD (N+1) 0 - xs.getD N 0) := by
+  have hM : ∀ u, (Mkernel u P.ms [] P.gamma P.h).getD (Mgen u P.ms [] P.gamma P.h) = 0 := by
+    intro u; rw [Mkernel_getD, hm, hg]; simp [Mgen]
+  simp only [axisLine, mkLine, hM, hN]
+  rw [if_neg (by omega), if_pos ⟨trivial, by simp, le_refl _⟩]
+  simp only [C.bcLast, show N + 2 - 2 = N by omega, zero_add]
+  ring
 
 /-- **Mutation influx**: injecting for a time dt adds exactly dt·θ0·(1−x₁)/2 to the heterozygosity
     (generated increment `_inject_mutations_1D`), for every grid. -/
